@@ -172,6 +172,7 @@ Definition job_final (c : case) (p : proj) : bool :=
   forallb (fun t =>
     if pt_completed t then
       if c_retain (k_cfg c) then mem (pt_name t) (job_names p) || negb (mem (pt_name t) (k_jobcreates c))
+                                 || existsb (fun ap => match fst ap with JobGone n => Nat.eqb n (pt_name t) | _ => false end) (k_steps c)
       else negb (mem (pt_name t) (job_names p))
     else true) (pj_trials p).
 
